@@ -32,14 +32,15 @@ def main():
         # solver statistics
         stats = {'n': 0, 't': 0.0}
         _orig_check = z3.Solver.check
+        _clock = time.perf_counter  # time.time()/monotonic() are modelled symbolically by CrossHair
 
         def _check(self, *a, **k):
-            s = time.time()
+            s = _clock()
             try:
                 return _orig_check(self, *a, **k)
             finally:
                 stats['n'] += 1
-                stats['t'] += time.time() - s
+                stats['t'] += _clock() - s
         z3.Solver.check = _check
 
         import crosshair.core_and_libs  # noqa: F401  (registers library models)
